@@ -20,18 +20,20 @@ theorem loop_ok_iff (apply : M → Bytes → Option M) (ms : List Member) (e : E
     loop apply ms e a = .ok a' ↔
       e = .eof ∧ Clean ms ∧ foldApply apply a.md (metas ms) = some a'.md ∧
       a'.metaB = a.metaB ++ cat nMeta ms ∧ a'.stateB = a.stateB ++ cat nState ms ∧
-      a'.sumsB = a.sumsB ++ cat nSums ms := by
+      a'.sumsB = a.sumsB ++ cat nSums ms ∧
+      (a'.sawMeta = true ↔ a.sawMeta = true ∨ Has nMeta ms) ∧
+      (a'.sawState = true ↔ a.sawState = true ∨ Has nState ms) := by
   fun_induction loop apply ms e a generalizing a'
   case case1 a =>
     cases a; cases a'
-    simp [Clean, cat, metas, foldApply]
+    simp [Clean, cat, metas, foldApply, Has]
     grind
   case case2 => simp
   all_goals
     have h1 := nMeta_ne_nState
     have h2 := nMeta_ne_nSums
     have h3 := nState_ne_nSums
-    simp_all [Clean, cat, metas, foldApply]
+    simp_all [Clean, cat, metas, foldApply, Has]
     try grind
 
 /-! ### `DecodeAndVerify` -/
@@ -52,42 +54,91 @@ theorem verify_ok_iff (H : Bytes → Bytes) (a : Acc M) :
   simp [verify, SumsOK, parseSums, checkLines_ok_iff]
 
 /-- `read` accepts exactly the streams that end cleanly, consist of complete members with the
-    three known names, whose meta.json payloads all decode, and whose SHA256SUMS text lists
-    exactly the digests of the concatenated meta.json and state.bin payloads. -/
+    three known names, whose meta.json payloads all decode, whose SHA256SUMS text lists
+    exactly the digests of the concatenated meta.json and state.bin payloads, and that contain
+    at least one meta.json and one state.bin member. -/
 theorem readStream_ok_iff (H : Bytes → Bytes) (apply : M → Bytes → Option M) (m0 m : M)
     (s : Stream) (st : Bytes) :
     readStream H apply m0 s = .ok (m, st) ↔
       s.ending = .eof ∧ Clean s.members ∧ foldApply apply m0 (metas s.members) = some m ∧
       st = cat nState s.members ∧
-      SumsOK (H (cat nMeta s.members)) (H (cat nState s.members)) (cat nSums s.members) := by
+      SumsOK (H (cat nMeta s.members)) (H (cat nState s.members)) (cat nSums s.members) ∧
+      Has nMeta s.members ∧ Has nState s.members := by
   unfold readStream
-  cases hl : loop apply s.members s.ending ⟨m0, [], [], []⟩ with
+  cases hl : loop apply s.members s.ending ⟨m0, [], [], [], false, false⟩ with
   | error e =>
     simp only [reduceCtorEq, false_iff]
-    intro ⟨he, hc, hf, hst, hs⟩
-    have := (loop_ok_iff apply s.members s.ending ⟨m0, [], [], []⟩
-      ⟨m, cat nMeta s.members, cat nState s.members, cat nSums s.members⟩).mpr
-      ⟨he, hc, hf, by simp, by simp, by simp⟩
+    intro ⟨he, hc, hf, hst, hs, h1, h2⟩
+    have := (loop_ok_iff apply s.members s.ending ⟨m0, [], [], [], false, false⟩
+      ⟨m, cat nMeta s.members, cat nState s.members, cat nSums s.members, true, true⟩).mpr
+      ⟨he, hc, hf, by simp, by simp, by simp, by simp [h1], by simp [h2]⟩
     rw [hl] at this; cases this
   | ok a =>
-    obtain ⟨he, hc, hf, hm, hs, hu⟩ := (loop_ok_iff apply s.members s.ending _ a).mp hl
-    simp only [List.nil_append] at hm hs hu
+    obtain ⟨he, hc, hf, hm, hs, hu, hsm, hss⟩ := (loop_ok_iff apply s.members s.ending _ a).mp hl
+    simp only [List.nil_append, Bool.false_eq_true, false_or] at hm hs hu hsm hss
     cases hv : verify H a with
     | error e =>
       simp only [hv, reduceCtorEq, false_iff]
-      intro ⟨_, _, _, _, hso⟩
+      intro ⟨_, _, _, _, hso, _, _⟩
       have := (verify_ok_iff H a).mpr (by rw [hm, hs, hu]; exact hso)
       rw [hv] at this; cases this
     | ok u =>
       have hso := (verify_ok_iff H a).mp (by rw [hv])
       rw [hm, hs, hu] at hso
-      simp only [hv, Except.ok.injEq, Prod.mk.injEq]
+      simp only [hv]
+      by_cases h1 : a.sawMeta = false
+      · have : ¬ Has nMeta s.members := by rw [← hsm, h1]; simp
+        simp [h1, this]
+      by_cases h2 : a.sawState = false
+      · have : ¬ Has nState s.members := by rw [← hss, h2]; simp
+        simp [h1, h2, this]
+      have e1 : a.sawMeta = true := by simpa using h1
+      have e2 : a.sawState = true := by simpa using h2
+      simp only [e1, e2, Bool.true_eq_false, if_false, Except.ok.injEq, Prod.mk.injEq]
+      have g1 : Has nMeta s.members := hsm.mp e1
+      have g2 : Has nState s.members := hss.mp e2
       constructor
       · rintro ⟨rfl, rfl⟩
-        exact ⟨he, hc, hf, hs, hso⟩
+        exact ⟨he, hc, hf, hs, hso, g1, g2⟩
       · rintro ⟨_, _, hf', hst, _⟩
         rw [hf] at hf'
         exact ⟨Option.some.inj hf', by rw [hst, hs]⟩
+
+/-- which error: a stream that passes everything else but lacks a member -/
+theorem readStream_missing (H : Bytes → Bytes) (apply : M → Bytes → Option M) (m0 m : M)
+    (s : Stream)
+    (he : s.ending = .eof) (hc : Clean s.members) (hf : foldApply apply m0 (metas s.members) = some m)
+    (hs : SumsOK (H (cat nMeta s.members)) (H (cat nState s.members)) (cat nSums s.members)) :
+    (¬ Has nMeta s.members → readStream H apply m0 s = .error .missingMeta) ∧
+    (Has nMeta s.members → ¬ Has nState s.members → readStream H apply m0 s = .error .missingState) := by
+  have hex : ∃ a, loop apply s.members s.ending ⟨m0, [], [], [], false, false⟩ = .ok a := by
+    classical
+    exact ⟨_, (loop_ok_iff apply s.members s.ending ⟨m0, [], [], [], false, false⟩
+      ⟨m, cat nMeta s.members, cat nState s.members, cat nSums s.members,
+        decide (Has nMeta s.members), decide (Has nState s.members)⟩).mpr
+      ⟨he, hc, hf, by simp, by simp, by simp, by simp, by simp⟩⟩
+  obtain ⟨a, hl⟩ := hex
+  unfold readStream
+  rw [hl]
+  · simp only
+    obtain ⟨_, _, _, hm, hst, hu, hsm, hss⟩ := (loop_ok_iff apply s.members s.ending _ a).mp hl
+    simp only [List.nil_append, Bool.false_eq_true, false_or] at hm hst hu hsm hss
+    have hv : verify H a = .ok () := (verify_ok_iff H a).mpr (by rw [hm, hst, hu]; exact hs)
+    simp only [hv]
+    constructor
+    · intro h1
+      have : a.sawMeta = false := by
+        cases h : a.sawMeta with
+        | false => rfl
+        | true => exact absurd (hsm.mp h) h1
+      simp [this]
+    · intro h1 h2
+      have e1 : a.sawMeta = true := hsm.mpr h1
+      have e2 : a.sawState = false := by
+        cases h : a.sawState with
+        | false => rfl
+        | true => exact absurd (hss.mp h) h2
+      simp [e1, e2]
 
 /-! ### `hashList.Encode` output scans back (`Sscanf` ∘ `Fprintf`) -/
 
